@@ -27,7 +27,7 @@ theorem readNode_plain (p : Spec.Read.Pos) (s : List Char) (y fl col0 : Bool) (p
     (hd : p.isFlow = true → ¬ [' ', '-'] <:+ s)
     (hm : col0 = true → isDocMarker (s ++ lineEnd p) = false) :
     readNode p (s ++ lineEnd p) col0 parent = some (.plain, s) := by
-  obtain ⟨_, hhead, hcs, hec, hsafe⟩ := pvs_unfold h
+  obtain ⟨_, hhead, hcs, hec, hsafe, _⟩ := pvs_unfold h
   have hsafe' : SafeChars p.isFlow s := by
     cases hp : p.isFlow with
     | false => exact fun c hc => ⟨(hsafe c hc).1, (hsafe c hc).2.1, fun hf => by cases hf⟩
@@ -108,15 +108,79 @@ theorem head_facts {c : Char} {r : List Char} (hh : headRejects (c :: r) = false
   rw [if_neg (by decide), if_neg (by decide), if_neg (by decide)] at hh
   revert hh; decide
 
-theorem readDoc_plain (p : Spec.Read.Pos) (hp : simplePos p = true) (s : List Char) (y fl : Bool)
+/-- a string of safe characters that is not marker-like does not form a document marker with what
+follows it on its line -/
+theorem docMarker_safe (p : Spec.Read.Pos) (fl : Bool) (s : List Char) (hs : SafeChars fl s) (hne : s ≠ [])
+    (hdm : docMarkerLike s = false) : isDocMarker (s ++ lineEnd p) = false := by
+  match s, hne with
+  | [a], _ => cases p <;> simp [lineEnd, Spec.Read.Pos.closing, isDocMarker]
+  | [a, b], _ => cases p <;> simp [lineEnd, Spec.Read.Pos.closing, isDocMarker]
+  | a :: b :: c :: r, _ =>
+    simp only [List.cons_append, isDocMarker]
+    simp only [docMarkerLike, Bool.and_eq_false_iff] at hdm
+    rcases hdm with hm | ht
+    · rw [hm]; rfl
+    · apply Bool.and_eq_false_iff.mpr
+      right
+      cases r with
+      | nil => simp [markerTail] at ht
+      | cons d r' =>
+        simp only [markerTail, Bool.or_eq_false_iff] at ht
+        have hd := hs d (by simp)
+        obtain ⟨_, hb, hn⟩ := not_control_facts hd.1
+        simp only [List.cons_append, endOrBlankZ, isBlankOrBreakZ, isBlank, Bool.or_eq_false_iff]
+        exact ⟨⟨⟨ht.1, ht.2⟩, hb⟩, hn⟩
+
+theorem stripPrefix_append (pre rest : List Char) : stripPrefix? pre (pre ++ rest) = some rest := by
+  induction pre with
+  | nil => rfl
+  | cons a pre ih => simp [stripPrefix?, ih]
+
+/-- the document frame: the writer's optional `%YAML 1.2` / `---` preamble in front of a text that
+starts neither with a byte-order mark nor with `%` -/
+theorem readDoc_frame (o : Opts) (p : Spec.Read.Pos) (X : List Char)
+    (hbom : X.head? ≠ some (Char.ofNat 0xFEFF)) (hpc : X.head? ≠ some '%') :
+    readDoc p (preamble o ++ X) = readDocBody p X := by
+  unfold readDoc preamble
+  cases o.yaml12 with
+  | true =>
+    simp only [if_true]
+    have h1 : stripBom ("%YAML 1.2\n---\n".toList ++ X) = yamlPreamble ++ X := rfl
+    rw [h1]
+    simp only [stripPrefix_append]
+  | false =>
+    simp only [Bool.false_eq_true, if_false, List.nil_append]
+    cases X with
+    | nil => rfl
+    | cons c r =>
+      have hc : c.toNat ≠ 0xFEFF := by
+        intro e
+        apply hbom
+        simp only [List.head?_cons, Option.some.injEq]
+        rw [← e, Char.ofNat_toNat]
+      have hc2 : c ≠ '%' := by simpa using hpc
+      have h1 : stripBom (c :: r) = c :: r := by
+        simp only [stripBom]; rw [if_neg (by simpa using hc)]
+      rw [h1]
+      have h2 : stripPrefix? yamlPreamble (c :: r) = none := by
+        have : (('%' : Char) == c) = false := by
+          apply Bool.eq_false_iff.mpr; intro e; exact hc2 (eq_of_beq e).symm
+        have hyp : yamlPreamble = '%' :: "YAML 1.2\n---\n".toList := by decide
+        rw [hyp, stripPrefix?, this]
+        rfl
+      rw [h2]
+
+theorem readDocBody_plain (p : Spec.Read.Pos) (hp : simplePos p = true) (s : List Char) (y fl : Bool)
     (h : isPlainValueSafe s y fl = true) (hfl : p.isFlow = true → fl = true)
-    (hb : s.getLast? ≠ some ' ')
-    (hd : p.isFlow = true → ¬ [' ', '-'] <:+ s)
-    (hm : posCol0 p = true → isDocMarker (s ++ lineEnd p) = false)
-    (hbom : posCol0 p = true → s.head? ≠ some (Char.ofNat 0xFEFF)) :
-    readDoc p (opening p ++ (s ++ lineEnd p)) = some (.plain, s) := by
+    (hu : isUnsafePlainShape s = false) :
+    readDocBody p (opening p ++ (s ++ lineEnd p)) = some (.plain, s) := by
+  obtain ⟨_, hhead, _, _, hsafe, hdash⟩ := pvs_unfold h
+  obtain ⟨hb, _, hdm⟩ := unsafe_shape_facts hu
+  have hne : s ≠ [] := by intro e; subst e; simp [headRejects] at hhead
+  have hd : p.isFlow = true → ¬ [' ', '-'] <:+ s := fun hf =>
+    not_suffix_of_endsWithBlankDash (hdash (hfl hf))
+  have hm : posCol0 p = true → isDocMarker (s ++ lineEnd p) = false := fun _ => docMarker_safe p fl s hsafe hne hdm
   have hnode := readNode_plain p s y fl (posCol0 p) (posParent p) h hfl hb hd hm
-  obtain ⟨_, hhead, _, _, hsafe⟩ := pvs_unfold h
   have hnul : (opening p ++ (s ++ lineEnd p)).any isNul = false := by
     rw [List.any_append, List.any_append]
     have h1 : (opening p).any isNul = false := by cases p <;> decide
@@ -129,24 +193,11 @@ theorem readDoc_plain (p : Spec.Read.Pos) (hp : simplePos p = true) (s : List Ch
       rw [this] at hcn; cases hcn
     rw [h1, h2, h3]; rfl
   cases s with
-  | nil => simp [headRejects] at hhead
+  | nil => exact absurd rfl hne
   | cons c r =>
     obtain ⟨hblank, hpct⟩ := head_facts hhead
     have hso := stripOpening_opening p hp c (r ++ lineEnd p) hblank
-    unfold readDoc
-    have hstrip : stripBom (opening p ++ (c :: r ++ lineEnd p)) = opening p ++ (c :: r ++ lineEnd p) := by
-      cases p <;> first
-        | rfl
-        | (cases hp; done)
-        | (have hc : c.toNat ≠ 0xFEFF := by
-             intro e
-             have := hbom rfl
-             apply this
-             simp only [List.head?_cons, Option.some.injEq]
-             rw [← e, Char.ofNat_toNat]
-           simp only [opening, List.nil_append, List.cons_append, stripBom]
-           rw [if_neg (by simpa using hc)])
-    rw [hstrip]
+    unfold readDocBody
     have hpc : ((opening p ++ (c :: r ++ lineEnd p)).head? == some '%') = false := by
       cases p <;> first
         | rfl
@@ -155,6 +206,12 @@ theorem readDoc_plain (p : Spec.Read.Pos) (hp : simplePos p = true) (s : List Ch
     simp only [hpc, hnul, Bool.or_self, Bool.false_eq_true, if_false]
     rw [show (c :: r ++ lineEnd p) = c :: (r ++ lineEnd p) from rfl, hso]
     exact hnode
+
+/-- heads of `opening p ++ s ++ …` for the frame lemma -/
+theorem opening_head (p : Spec.Read.Pos) (c : Char) (r : List Char)
+    (hc : c ≠ '%') (hb : c ≠ Char.ofNat 0xFEFF) :
+    (opening p ++ c :: r).head? ≠ some (Char.ofNat 0xFEFF) ∧ (opening p ++ c :: r).head? ≠ some '%' := by
+  cases p <;> simp [opening] <;> first | exact ⟨hb, hc⟩ | decide
 
 /-! ### the writer side: when does `emitDoc` write the string verbatim? -/
 
@@ -170,28 +227,27 @@ def isKeyPos : SerScalar.Pos → Bool
 
 /-- "the writer decides *plain* for `s` in position `p`": the key sink's test in key positions; in value
 positions no automatic block style, no `quote_all`, the value test, and not the one-character special
-case (`.` is written `'.'`). -/
+case (`.` is written `'.'`); everywhere `!is_unsafe_plain_shape(s)`. -/
 def writerPlain (o : Opts) (p : SerScalar.Pos) (s : List Char) : Prop :=
-  if isKeyPos p then (isPlainSafe s && isPlainValueSafe s o.yaml12 true) = true
+  if isKeyPos p then (isPlainSafe s && isPlainValueSafe s o.yaml12 true && !isUnsafePlainShape s) = true
   else o.quoteAll = false ∧ autoStyle o (toRead p).isFlow s = none ∧
-       isPlainValueSafe s o.yaml12 (toRead p).isFlow = true ∧ s ≠ ['.']
+       isPlainValueSafe s o.yaml12 (toRead p).isFlow = true ∧ isUnsafePlainShape s = false ∧ s ≠ ['.']
 
 instance (o : Opts) (p : SerScalar.Pos) (s : List Char) : Decidable (writerPlain o p s) := by
   unfold writerPlain; infer_instance
 
 theorem emit_plain (o : Opts) (p : SerScalar.Pos) (hp : simplePos (toRead p) = true) (s : List Char)
-    (hy : o.yaml12 = false) (hw : writerPlain o p s) :
-    emitDoc o p s = .ok (opening (toRead p) ++ (s ++ lineEnd (toRead p))) := by
-  have hpre : preamble o = [] := by simp [preamble, hy]
+    (hw : writerPlain o p s) :
+    emitDoc o p s = .ok (preamble o ++ (opening (toRead p) ++ (s ++ lineEnd (toRead p)))) := by
   unfold writerPlain at hw
   by_cases hk : isKeyPos p = true
   · rw [if_pos hk] at hw
     cases p <;> first
       | (cases hk; done)
-      | (simp [emitDoc, keySinkStr, hw, hpre, opening, toRead, lineEnd, Spec.Read.Pos.closing])
+      | (simp [emitDoc, keySinkStr, hw, opening, toRead, lineEnd, Spec.Read.Pos.closing])
   · rw [if_neg hk] at hw
-    obtain ⟨hq, hauto, hpv, hdot⟩ := hw
-    obtain ⟨_, hhead, _, _, _⟩ := pvs_unfold hpv
+    obtain ⟨hq, hauto, hpv, hu, hdot⟩ := hw
+    obtain ⟨_, hhead, _, _, _, _⟩ := pvs_unfold hpv
     have hspecial : (s.length == 1 && (s == ['.'] || s == ['#'] || s == ['-'])) = false := by
       have h1 : (s == ['.']) = false := by simpa using hdot
       have h2 : (s == ['#']) = false := by
@@ -199,14 +255,14 @@ theorem emit_plain (o : Opts) (p : SerScalar.Pos) (hp : simplePos (toRead p) = t
       have h3 : (s == ['-']) = false := by
         apply Bool.eq_false_iff.mpr; intro e; have := eq_of_beq e; subst this; revert hhead; decide
       simp [h1, h2, h3]
+    have hV : writePlainOrQuoted ['V'] false = ['V'] := by decide
     cases p <;> first
       | (cases hp; done)
       | (exfalso; exact hk rfl)
       | (simp only [toRead, Spec.Read.Pos.isFlow] at hauto hpv
-         have hpv' := hpv
-         rw [hy] at hpv'
-         have hV : isPlainSafe ['V'] = true := by decide
-         simp [emitDoc, hpv', spaces, serializeStr, hauto, scalarTail, hspecial, writePlainOrQuotedValue, writePlainOrQuoted, hq, hpre,
-           opening, toRead, lineEnd, Spec.Read.Pos.closing, writeIndent, hy, hV])
+         cases hy : o.yaml12 <;>
+         (rw [hy] at hpv
+          simp [emitDoc, hpv, hu, hV, spaces, serializeStr, hauto, scalarTail, hspecial, writePlainOrQuotedValue, hq, preamble,
+            opening, toRead, lineEnd, Spec.Read.Pos.closing, writeIndent, hy]))
 
 end SaphyrVerif.Lemmas.C12
